@@ -50,6 +50,22 @@ def c07_jobs(ctx, focus=()):
         t = search.cont_task(obj=r.choice(["sphere", "rastrigin"]), seed=r.choice([0, 42, 7]), dim=3)
         cfg = {"max_cycles": 4, "fitness_error": None}
         jobs.append(({"opt": nm, "cfg": cfg, "task": t}, {"opt": nm, "cfg": cfg, "task": t, "sequence": [{"task": t}]}))
+    # the k-th run in an interpreter is the first run: other instances of the class (one parameter / the population size slightly different), other tasks of the
+    # same class used earlier in the same process and kept alive (class- or module-level state, memoised methods)
+    from . import validators
+    for nm in (search.all_names() if not ctx.quick else r.sample(search.all_names(), min(84, 16 * ctx.boost)) + [n for n in focus]):
+        P0 = search.fixture_scale(nm)["population_size"]
+        t = search.cont_task(obj=r.choice(["sphere", "rastrigin"]), seed=r.choice([0, 42, 7]), dim=3)
+        cfg = {"max_cycles": 3, "fitness_error": None}
+        ec1 = [c for c in validators.edge_configs(nm, sizes=(P0,)) if len(c) > 1]
+        pre = [{"opt": nm, "cfg": {"fitness_error": None, **c, "max_cycles": 2}, "task": search.cont_task(obj="sphere", seed=r.randint(0, 99), dim=3)} for c in r.sample(ec1, min(len(ec1), 2))]
+        pre.append({"opt": nm, "cfg": {"fitness_error": None, "max_cycles": 2, "population_size": P0 + r.choice([-3, -2, -1, 1, 2, 3])},
+                    "task": search.cont_task(obj="sphere", lo=5.0, hi=9.0, seed=r.randint(0, 99), dim=r.choice([2, 3, 4]))})
+        r.shuffle(pre)
+        jobs.append(({"opt": nm, "cfg": cfg, "task": t}, {"opt": nm, "cfg": cfg, "task": t, "pre_jobs": pre}))
+        # ... and a call that was ABORTED part-way (the objective raised) or REFUSED (bad arguments) on this very instance, then the same seeded call
+        ab = dict(search.cont_task(obj="sphere", seed=r.randint(0, 99), dim=3), raise_at=P0 + r.randint(2, 2 * P0))
+        jobs.append(({"opt": nm, "cfg": cfg, "task": t}, {"opt": nm, "cfg": cfg, "task": t, "sequence": [{"task": ab}]}))
     # equal tasks are equal tasks: a task OBJECT that was sampled from / optimised on before (state kept on a variable or on the task would escape the seed) against a
     # freshly built equal one - for every encoding, on optimizer x encoding pairs known to run (expectations.json: c06_int_works) and on continuous tasks
     from . import census
@@ -117,6 +133,19 @@ def c08_jobs(ctx):
             es = r.choice([None, None, {"patience": r.choice([1, 3]), "min_delta": r.choice([0.01, 0.5, float("inf")])}])
             cfg = {"max_cycles": r.choice([3, 8, 20]), "fitness_error": r.choice([None, None, 0.3]), "early_stopping": es}
             jobs.append(({"opt": nm, "cfg": cfg, "task": last, "sequence": prev}, {"opt": nm, "cfg": cfg, "task": last}))
+        # the earlier call did not complete: aborted by the objective part-way through a cycle, or refused for its arguments (unknown mode, non-positive workers);
+        # the next - valid - call, in a pooled mode without a worker count, behaves like a fresh instance's
+        if not ctx.quick or r.random() < 0.6 * ctx.boost:
+            P0 = search.fixture_scale(nm)["population_size"]
+            last = search.cont_task(obj="sphere", seed=r.randint(0, 10**6), dim=3)
+            cfg = {"max_cycles": 3, "fitness_error": None}
+            kind = r.choice(["abort", "abort", "workers", "mode"])
+            if kind == "abort": prev = [{"task": dict(search.cont_task(obj="step", seed=r.randint(0, 99), dim=3), raise_at=P0 + r.randint(2, 3 * P0))}]
+            elif kind == "workers": prev = [{"task": dict(last), "kw": {"workers": r.choice([0, -2]), "mode": r.choice(["thread", "serial"])}}]
+            else: prev = [{"task": dict(last), "kw": {"mode": "bogus", "workers": 3}}]
+            ja = {"opt": nm, "cfg": cfg, "task": last, "sequence": prev}; jb = {"opt": nm, "cfg": cfg, "task": last}
+            if kind != "abort" and r.random() < 0.7: ja["mode"] = jb["mode"] = "thread"
+            jobs.append((ja, jb))
     return jobs
 
 
@@ -124,8 +153,10 @@ def c08_decide(ctx, pairs, obs):
     n = 0
     for (ja, jb), oa, ob in zip(pairs, obs[0::2], obs[1::2]):
         n += 1
+        if ob["ok"] and not oa["ok"] and ja.get("mode") == "thread" and oa["error"]["where"].startswith(("abstract.py", "helpers.py:get_pool")):
+            ctx.violation(f"reused-instance-fails:{ja['opt']}", f"{ja['opt']}: a valid call after a refused / aborted one on the same instance raises {oa['error']}", {"kind": "pair", "a": ja, "b": jb}); continue
         if not (oa["ok"] and ob["ok"]): continue
-        d = same_result(oa, ob)
+        d = None if ja.get("mode") == "thread" else same_result(oa, ob)            # pooled runs are not comparable run to run (C11): only completion is
         if d:
             ctx.violation(f"reused-instance-differs:{ja['opt']}", f"{ja['opt']}: optimize() on an instance used {len(ja['sequence'])} time(s) before differs from a fresh instance: {d}",
                           {"kind": "pair", "a": ja, "b": jb})
@@ -144,6 +175,14 @@ def c09_jobs(ctx):
                 t = {"vars": [("multiobj", ([-4.0, -4.0], [4.0, 4.0]))], "obj": "multi2", "minmax": "min", "weights": [0.5, 0.5], "seed": 3}
             j = {"opt": nm, "cfg": {"max_cycles": r.choice([1, 3]), "fitness_error": None}, "task": t}
             if mode: j["mode"] = mode; j["workers"] = 2
+            jobs.append(j)
+        # calls that RAISE leave the caller's objects alone too: a seed numpy refuses (negative, >= 2**32), an unknown mode, an objective failing part-way
+        if not ctx.quick or r.random() < 0.5 * ctx.boost:
+            bad = r.choice([{"seed": -1}, {"seed": 2**32}, {"seed": 2**40 + 5}, {"seed": -7, "mode": "bogus"}, {"raise_at": 3}])
+            t = search.cont_task(obj="sphere", seed=bad.get("seed", r.randint(0, 99)), minmax=r.choice(["min", "max"]))
+            if bad.get("raise_at"): t["raise_at"] = search.fixture_scale(nm)["population_size"] + 2
+            j = {"opt": nm, "cfg": {"max_cycles": 2, "fitness_error": None}, "task": t}
+            if bad.get("mode"): j["mode"] = bad["mode"]
             jobs.append(j)
         # integer-coded tasks made of ONE multi-variable (the search-space description must not be shared with, and edited by, the run)
         for vs in ([("binary", 4)], [("discmulti", [3, 4, 2])]) if (not ctx.quick or r.random() < 0.5) else ([r.choice([("binary", 4), ("perm", 5)])],):
@@ -275,6 +314,19 @@ def c18_jobs(ctx):
         t = search.cont_task(obj=r.choice(["sphere", "rastrigin"]), seed=r.randint(0, 10**6))
         cfg = {"max_cycles": r.choice([2, 3]), "fitness_error": None}
         jobs.append(({"opt": nm, "cfg": cfg, "task": t, "via_set_config": True}, {"opt": nm, "cfg": cfg, "task": t}))
+        # a call refused for the missing configuration (made in a pooled mode, with a worker count) leaves nothing behind
+        if not ctx.quick or r.random() < 0.5 * ctx.boost:
+            jobs.append(({"opt": nm, "cfg": cfg, "task": t, "via_set_config": True, "refused_first": r.choice([{"mode": "thread"}, {"mode": "thread", "workers": 3}, {"mode": "process"}, {}])},
+                         {"opt": nm, "cfg": cfg, "task": t}))
+        # ONE algorithm parameter changes between the two configurations (same population size): tables derived from the old value must not survive
+        from . import validators
+        P0 = search.fixture_scale(nm)["population_size"]
+        ec1 = [c for c in validators.edge_configs(nm, sizes=(P0,)) if len(c) > 1]
+        for c in r.sample(ec1, min(len(ec1), (2 if ctx.quick else len(ec1)) * ctx.boost)):
+            t3 = search.cont_task(obj="sphere", seed=r.randint(0, 10**6))
+            cfg3 = {"max_cycles": 3, "fitness_error": None}
+            jobs.append(({"opt": nm, "cfg": cfg3, "task": t3, "first_cfg": {**c, "max_cycles": 2, "fitness_error": None}, "sequence": [{"task": search.cont_task(obj="rastrigin", seed=r.randint(0, 10**6))}]},
+                         {"opt": nm, "cfg": cfg3, "task": t3}))
         # HyperTuner / Multitask style: an instance that already ran under another configuration is reconfigured and run again
         for _ in range((1 if ctx.quick else 10) * ctx.boost):
             first = {**perturbed(r, search.fixture_scale(nm)), "max_cycles": 2, "fitness_error": None}
